@@ -117,11 +117,28 @@ Fixpoint intake_all (fuel : nat) (inp : list frame) (m : sim) : sim :=
       end
   end.
 
+(** [normalize] replaces the function-valued fields (chains of updates) by look-ups in
+    snapshot lists: extensionally the same state (pc beyond nrecv is RNone, closed
+    beyond nrecv is false, tags are only ever set for tags of received frames); it
+    only keeps evaluation cheap. *)
+Definition sframe_tag (f : sframe) : N :=
+  match f with SOp t _ _ _ => t | SFlush t _ => t | SReject t => t end.
+Definition normalize (all : list sframe) (s : state) : state :=
+  let n := nrecv s in
+  let snap := map (pc s) (seq 0 n) in
+  let cl := map (closed s) (seq 0 n) in
+  let tg := map (fun f => let t := sframe_tag f in (t, tags s t)) (firstn n all) in
+  mkState n (shut s) (recvmu s) (nnew s) (nidle s)
+          (fun i => nth i snap RNone)
+          (fun t => match find (fun p => fst p =? t) tg with Some (_, v) => v | None => None end)
+          (fun c => nth c cl false) (sendmu s) (wire s) (replies s).
+
 Fixpoint quiesce (fuel : nat) (inp : list frame) (all : list sframe) (m : sim) : sim :=
   match fuel with
   | O => m
   | S f =>
       (* the holder of recvMu must get through before the next frame can be received *)
+      let m := mkSim (normalize all (st m)) (avail m) (rel m) (entered m) in
       let m0 := intake_all 2 inp m in
       let '(m1, b) := pass inp all m0 (seq 0 (nrecv (st m0))) in
       if b || negb (Nat.eqb (nrecv (st m1)) (nrecv (st m))) then quiesce f inp all m1 else m1
